@@ -159,7 +159,6 @@ theorem inv_provideCancelled (h : Bool) (s s' : SyncState) (v : Bool) (hi : Inv 
       rename_i heq
       exact inv_cancelStep h s _ hi heq
     · cases hs
-    · cases hs
 
 theorem inv_closeReturn (h : Bool) (s s' : SyncState) (hi : Inv s)
     (hs : syncStep h s (.closeReturn) = .next s') : Inv s' := by
@@ -219,7 +218,6 @@ theorem inv_ctxAtRun (h : Bool) (s s' : SyncState) (hi : Inv s)
         simp only at hcd
         subst q1 q2 q3 hcd
         constructor <;> simp_all [earlyPc] <;> (try omega)
-      · cases hs
       · cases hs
     · cases hs
       obtain ⟨d0, d1, e0, e1, r0, r1, wg, sg, x1, xa, ea, rt, lt, cl, cc, cw⟩ := hi
@@ -307,21 +305,10 @@ theorem provideCancelled_not_blocked (h : Bool) (s : SyncState) (v : Bool) (hi :
     · simp
     · rename_i heq
       exact absurd heq (cancelStep_not_blocked h s hs)
-    · simp
 
-theorem provideCancelled_not_panic (s : SyncState) (v : Bool) :
-    ∀ site, syncStep true s (.provideCancelled v) ≠ .panic site := by
-  intro site
-  simp only [syncStep]
-  split
-  · simp
-  · split
-    · simp
-    · simp
-    · rename_i heq
-      unfold cancelStep at heq
-      repeat' split at heq
-      all_goals simp_all
+/-- no action of the skeleton panics (since 691f1ef `cancelStep` does not touch a missing handler) -/
+theorem never_panics (h : Bool) (s : SyncState) (a : Act) (site : String) : syncStep h s a ≠ .panic site := by
+  cases a <;> simp only [syncStep, runMove] <;> (repeat' split) <;> simp
 
 /-! ### the once-only flags -/
 
